@@ -30,6 +30,7 @@ type Report struct {
 	Assume    []string
 	Extra     map[string]any
 	FuncsSeen map[string]bool
+	OutDir    string
 	start     time.Time
 }
 
@@ -107,6 +108,10 @@ func loadFindings(verifDir string) []Finding {
 // process exit code.
 func (r *Report) Finish(verifDir string, explanation string) int {
 	known := loadFindings(verifDir)
+	outDir := filepath.Join(verifDir, "evidence")
+	if r.OutDir != "" {
+		outDir = r.OutDir
+	}
 	var viol, knownHit []Ob
 	for _, o := range r.Obs {
 		if o.OK {
@@ -144,6 +149,14 @@ func (r *Report) Finish(verifDir string, explanation string) int {
 			seenRule[o.Rule]++
 		}
 	}
+	var keys []string
+	for _, o := range r.Obs {
+		st := "ok"
+		if !o.OK {
+			st = "FAILED"
+		}
+		keys = append(keys, o.Rule+" "+o.Construct+" @"+o.Pos+" "+st)
+	}
 	var fl []string
 	for f := range r.FuncsSeen {
 		fl = append(fl, f)
@@ -162,6 +175,7 @@ func (r *Report) Finish(verifDir string, explanation string) int {
 		"functions_analysed":  fl,
 		"exhaustive":          true,
 		"notes":               r.Notes,
+		"obligation_keys":     keys,
 	}
 	for k, v := range r.Extra {
 		cov[k] = v
@@ -182,9 +196,9 @@ func (r *Report) Finish(verifDir string, explanation string) int {
 		"wall_s":      time.Since(r.start).Seconds(),
 		"violations":  len(viol),
 	}
-	os.MkdirAll(filepath.Join(verifDir, "evidence"), 0o755)
+	os.MkdirAll(outDir, 0o755)
 	b, _ := json.MarshalIndent(ev, "", " ")
-	evPath := filepath.Join(verifDir, "evidence", r.Prop+".json")
+	evPath := filepath.Join(outDir, r.Prop+".json")
 	if err := os.WriteFile(evPath, b, 0o644); err != nil {
 		fmt.Fprintln(os.Stderr, "cannot write evidence:", err)
 		return 2
@@ -197,7 +211,7 @@ func (r *Report) Finish(verifDir string, explanation string) int {
 		fmt.Printf("KNOWN-FINDING: property=%s %s %s at %s: %s\n", r.Prop, o.Rule, o.Construct, o.Pos, o.Detail)
 	}
 	if len(viol) > 0 {
-		rp := filepath.Join(verifDir, "evidence", r.Prop+".violation.json")
+		rp := filepath.Join(outDir, r.Prop+".violation.json")
 		vb, _ := json.MarshalIndent(map[string]any{"property": r.Prop, "violations": viol}, "", " ")
 		os.WriteFile(rp, vb, 0o644)
 		for _, o := range viol {
@@ -206,6 +220,6 @@ func (r *Report) Finish(verifDir string, explanation string) int {
 		fmt.Printf("VIOLATION property=%s replay=%s\n", r.Prop, rp)
 		return 1
 	}
-	os.Remove(filepath.Join(verifDir, "evidence", r.Prop+".violation.json"))
+	os.Remove(filepath.Join(outDir, r.Prop+".violation.json"))
 	return 0
 }
